@@ -115,7 +115,7 @@ Record NodeObs := mkNodeObs {
 Inductive c40_case :=
 | C40Reduce (st : State) (st_exists : bool) (cu : Cursor) (cu_exists : bool) (e : Event)
             (o_st : State) (o_cu : Cursor) (o_did : bool) (o_res : Result)
-| C40Merge (p : Payload) (s : Snap) (o : Payload)
+| C40Merge (p : Payload) (s : Snap) (o : option Payload)   (* None: the call panicked *)
 | C40Meta (steps : list (MetaOp * MetaObs))
 | C40Node (max_sessions hs_count : N) (chan_hs : list (bytes * N)) (steps : list (NodeOp * NodeObs)).
 
@@ -180,9 +180,14 @@ Definition C40_mismatch (c : c40_case) : bool :=
     let '(st', cu', did, res) := reduceMessageEventAppend st st_exists cu cu_exists e in
     negb (state_eqb st' o_st && cursor_eqb cu' o_cu && Bool.eqb did o_did && result_eqb res o_res)
   | C40Merge p s o =>
-    let m := mergeMessageEventTerminalPayload p s in
-    negb (tview_eqb m o && Bool.eqb (p_hassnap m) (p_hassnap o) && Bool.eqb (p_obj m) (p_obj o)
-          && (if is_empty (s_raw s) then bytes_eqb (p_raw m) (p_raw o) else true))
+    match o with
+    | None => negb (merge_panics p s)
+    | Some o =>
+      let m := mergeMessageEventTerminalPayload p s in
+      merge_panics p s
+      || negb (tview_eqb m o && Bool.eqb (p_hassnap m) (p_hassnap o) && Bool.eqb (p_obj m) (p_obj o)
+               && (if is_empty (s_raw s) then bytes_eqb (p_raw m) (p_raw o) else true))
+    end
   | C40Meta steps => meta_mismatch db_empty steps
   | C40Node max_sessions hs_count chan_hs steps => node_mismatch (node_init max_sessions chan_hs hs_count) steps
   end.
@@ -351,7 +356,7 @@ Definition dumped_lane (ds : list Dump) hs c t m key : option State :=
    cached snapshot, not durable before, flush id not used before *)
 Definition lane_pending (g : DB) (hs : N) (fin : Event) (cached : State) : bool :=
   let c := e_channel fin in let t := e_ctype fin in let m := e_msgno fin in
-  negb (is_empty (s_raw (st_snap cached)))
+  negb (is_empty (s_raw (st_snap cached))) && is_some (tsnap_of_canon (s_canon (st_snap cached)))
   && negb (is_some (get_state g hs c t m (st_key cached)))
   && negb (is_some (get_applied g hs c t m (finishFlushMessageEventID (e_id fin) (st_key cached)))).
 
@@ -398,6 +403,30 @@ Definition finish_monitor (g : DB) (chan_hs : list (bytes * N)) (cache : list Ca
     end
   end.
 
+(* a call that panicked: violation, except known-finding signature 3 — a terminal
+   event (close, error, cancel, finish) whose non-empty payload is the JSON
+   literal null while the cache holds a non-empty snapshot to merge into it
+   (the lane of the event; for finish: some open lane) *)
+Definition json_null_payload (p : Payload) : bool :=
+  negb (is_empty (p_raw p)) && bytes_eqb (p_canon p) json_null.
+
+Definition panic_monitor (cache : list CacheDump) (e : Event) (obs : NodeObs) : N :=
+  match no_err obs with
+  | EPanic =>
+    match normalizeMessageEventAppend e with
+    | None => 1
+    | Some ne =>
+      let lanes := cache_lanes cache (e_channel ne) (e_ctype ne) (e_msgno ne) in
+      let has_snapshot (s : State) := negb (is_empty (s_raw (st_snap s))) in
+      if isMessageEventTerminalEvent (e_etype ne) && json_null_payload (e_payload ne)
+         && (if bytes_eqb (e_etype ne) EventTypeStreamFinish
+             then existsb has_snapshot (filter open_lane lanes)
+             else existsb (fun s => bytes_eqb (st_key s) (e_key ne) && has_snapshot s) lanes)
+      then 3 else 1
+    end
+  | _ => 0
+  end.
+
 Definition node_calls (chan_hs : list (bytes * N)) (obs : NodeObs) : list (N * Event * (Err * option Result)) :=
   flat_map (fun prop => map (fun er => (opt_or (assoc (e_channel (fst er)) chan_hs) 0, fst er,
                                         match snd er with Some r => (ENone, Some r) | None => (EOther, None) end)) prop)
@@ -418,7 +447,10 @@ Fixpoint node_monitor (g : DB) (chan_hs : list (bytes * N)) (cache : list CacheD
     | None => 1
     | Some g' =>
       if negb (dumps_are g' (no_dumps obs)) then 1 else
-      let f := match op with NEv e _ => finish_monitor g chan_hs cache e obs | _ => 0 end in
+      let f := match op with
+               | NEv e _ => max_code (finish_monitor g chan_hs cache e obs) (panic_monitor cache e obs)
+               | _ => match no_err obs with ENone => 0 | _ => 1 end
+               end in
       (* cache-only events (open, delta, snapshot) are not durable: they propose nothing *)
       let co := match op with
                 | NEv e _ => match normalizeMessageEventAppend e with
@@ -436,7 +468,12 @@ Definition C40_monitor (c : c40_case) : N :=
   match c with
   | C40Reduce st st_exists cu cu_exists e o_st o_cu o_did o_res =>
     reduce_monitor st st_exists cu cu_exists e o_st o_cu o_did o_res
-  | C40Merge _ _ _ => 0
+  | C40Merge p s o =>
+    (* a panic is a violation; known-finding signature 3: payload is the JSON literal null and the snapshot is non-empty *)
+    match o with
+    | Some _ => 0
+    | None => if negb (is_empty (s_raw s)) && negb (is_empty (p_raw p)) && bytes_eqb (p_canon p) json_null then 3 else 1
+    end
   | C40Meta steps => meta_monitor db_empty steps
   | C40Node _ _ chan_hs steps => node_monitor db_empty chan_hs [] steps
   end.
